@@ -303,7 +303,11 @@ def schema_errors_first(check: Check, repo: Repo, rule: str = "SCHEMA-ERRORS-FIR
     )
     fn = repo.func("graphql.graphql", "graphql_impl")
     cfg = CFG(fn)
-    tests = [n for n in cfg.nodes if n.kind == "test" and any(isinstance(c, ast.Call) and call_name(c) == "validate_schema" for c in ast.walk(n.ast))]
+    # the outcome may be named first: `errs = validate_schema(schema)` ... `if errs:`
+    held = {t.id for s_ in walk_body(fn) if isinstance(s_, ast.Assign) and isinstance(s_.value, ast.Call) and call_name(s_.value) == "validate_schema"
+            for t in s_.targets if isinstance(t, ast.Name)}
+    tests = [n for n in cfg.nodes if n.kind == "test" and (any(isinstance(c, ast.Call) and call_name(c) == "validate_schema" for c in ast.walk(n.ast))
+                                                            or (isinstance(n.ast, ast.Name) and n.ast.id in held))]
     ok = len(tests) == 1
     detail = f"{len(tests)} validate_schema tests"
     if ok:
